@@ -968,7 +968,7 @@ func Main(wide bool) {
 		// the model re-judges the trace.
 		for _, l := range vh.ReadLines(path) {
 			w := strings.Fields(l)
-			if len(w) > 0 && (w[0] == "rx" || w[0] == "rxk" || w[0] == "rd") {
+			if len(w) > 0 && (w[0] == "rx" || w[0] == "rxk" || w[0] == "rxo" || w[0] == "rd" || w[0] == "rdo") {
 				fmt.Println(RunRx(l)) // executed on the real receive loop
 			} else if len(w) > 0 && (w[0] == "avail" || w[0] == "calls" || w[0] == "alive" || w[0] == "probes") {
 				fmt.Println("(recorded)")
@@ -1004,6 +1004,9 @@ func Main(wide bool) {
 			}
 			out.Case(line, RunRx(line), cls, true)
 			nrx++
+		}
+		if rxHung {
+			os.WriteFile(path+"/fatal.txt", []byte("receive loop blocked on a scripted socket\n"+gocql.VerifLastHangDump), 0o644)
 		}
 	}
 	nreq := 0
